@@ -436,6 +436,12 @@ impl Iterator for Intersperse {
     fn next(&mut self) -> Option<Self::Item> {
         let next = self.peeked.take().or_else(|| self.iter.next());
 
+        // An error isn't a value that needs to be separated from the previous one,
+        // so it gets passed on immediately.
+        if matches!(next, Some(Output::Error(_))) {
+            return next;
+        }
+
         if next.is_some() {
             let result = if self.next_is_separator {
                 self.peeked = next;
@@ -501,6 +507,12 @@ impl Iterator for IntersperseWith {
 
     fn next(&mut self) -> Option<Self::Item> {
         let next = self.peeked.take().or_else(|| self.iter.next());
+
+        // An error isn't a value that needs to be separated from the previous one,
+        // so it gets passed on immediately.
+        if matches!(next, Some(Output::Error(_))) {
+            return next;
+        }
 
         if next.is_some() {
             let result = if self.next_is_separator {
